@@ -464,11 +464,15 @@ class ClientSSM(SSM):
                 self.restart_timer(self.segmentTimeout)
                 return
 
-            # actual window size is provided by server
+            # actual window size is provided by server, the ack belongs to
+            # the window that was in effect when the segments were sent
+            if self.actualWindowSize is None:
+                self.actualWindowSize = apdu.apduWin
+            in_window = self.in_window(apdu.apduSeq, self.initialSequenceNumber)
             self.actualWindowSize = apdu.apduWin
 
             # duplicate ack received?
-            if not self.in_window(apdu.apduSeq, self.initialSequenceNumber):
+            if not in_window:
                 if _debug: ClientSSM._debug("    - not in window")
                 self.restart_timer(self.segmentTimeout)
 
@@ -1135,11 +1139,15 @@ class ServerSSM(SSM):
                 self.restart_timer(self.segmentTimeout)
                 return
 
-            # actual window size is provided by client
+            # actual window size is provided by client, the ack belongs to
+            # the window that was in effect when the segments were sent
+            if self.actualWindowSize is None:
+                self.actualWindowSize = apdu.apduWin
+            in_window = self.in_window(apdu.apduSeq, self.initialSequenceNumber)
             self.actualWindowSize = apdu.apduWin
 
             # duplicate ack received?
-            if not self.in_window(apdu.apduSeq, self.initialSequenceNumber):
+            if not in_window:
                 if _debug: ServerSSM._debug("    - not in window")
                 self.restart_timer(self.segmentTimeout)
 
